@@ -83,6 +83,17 @@ def findRow (owner dest : String) : Except String OptRow :=
   | some r => pure r
   | none => throw s!"no row {owner}/{dest}"
 
+/-- the row a request speaks about: a row of the generated table, or — when the request carries `custom` (options of a
+backend that is not in the table: the synthetic custom backends of the harness) — the instance of the schema
+`customBackendRow` with the given names -/
+def rowOfRequest (j : Json) : Except String OptRow := do
+  match j.getObjVal? "custom" with
+  | .ok (Json.obj _) =>
+    let c ← j.getObjVal? "custom"
+    pure (customBackendRow (← getStr c "owner") (← getStr c "dest") (← getStr c "flag") (← getStr c "env") (← getStr c "key")
+      (← (← c.getObjVal? "builtinKind").getNat?))
+  | _ => findRow (← getStr j "owner") (← getStr j "dest")
+
 def findCmd (name : String) : Except String OptCommand :=
   match optCommands.find? (fun c => c.name == name || c.aliases.contains name) with
   | some c => pure c
@@ -100,7 +111,7 @@ def handleOptions (op : String) (j : Json) : Except String Json := do
       ("steps", jnat optSteps.length)])
   | "options.resolve" =>
     let cmd ← findCmd (← getStr j "command")
-    let row ← findRow (← getStr j "owner") (← getStr j "dest")
+    let row ← rowOfRequest j
     let coArr ← getArr j "co"
     let table ← coArr.toList.mapM (fun e => do
       let ea ← e.getArr?
@@ -125,6 +136,9 @@ def handleOptions (op : String) (j : Json) : Except String Json := do
                    ("fileOkProf", Json.bool (fileOk sem row s.prof)), ("fileOkDflt", Json.bool (fileOk sem row s.dflt))]
       | none => []
     pure (Json.mkObj ([("pipeline", resJ)] ++ extra))
+  | "options.custom_row" =>
+    -- the schema instance for one option of an arbitrary backend (as the model sees it)
+    pure (rowJson (← rowOfRequest j))
   | "options.two_flags" =>
     -- argparse's verdict on two flags of one sub-command
     let cmd ← findCmd (← getStr j "command")
